@@ -431,6 +431,15 @@ def gen_cases(ctx):
     add([uniform_axis(2, 2), uniform_axis(1, 3)], 1, True, None,
         [{'kind': 'refine', 'marks': [[0, [[0, 0], [1, 2]]]], 'container': 'set'},
          {'kind': 'refine', 'marks': [[1, [[1, 1]]], [0, [[1, 0]]]], 'container': 'tuple'}], 1, 'hand-2d-two-corners', 400)
+    # refine(..., truncate=True) marking with disparity 1: the mesh is admissible for the truncated basis only, HB
+    # functions of levels 1 and 3 interact (the history of Props.window_sufficient_old_refuted)
+    add([uniform_axis(2, 3)], 1, True, [],
+        [{'kind': 'refine', 'marks': [[0, [[0]]]], 'container': 'set'}, {'kind': 'refine', 'marks': [[1, [[0]]]], 'container': 'tuple'},
+         {'kind': 'refine', 'marks': [[2, [[0], [1]]], [1, [[3], [5]]]], 'container': 'list', 'trunc': True}], 3, 'hand-1d-trunc-marking', 400)
+    # C^0 interior knot and a convection form: blocks with explicitly stored zeros
+    add([uniform_axis(2, 2, mult=2)], None, True, None,
+        [{'kind': 'refine', 'marks': [[0, [[0]]]], 'container': 'list'}, {'kind': 'refine', 'marks': [[1, [[1]]]], 'container': 'set'}], 1,
+        'hand-1d-stored-zeros', 400)
     n1 = 40 if thorough else 7
     n2 = 60 if thorough else 5
     n3 = 4 if thorough else 0
